@@ -24,10 +24,24 @@ from . import harness as _h
 
 
 def poly_to_z3(p, zvars):
+    """unit variables (strictly positive, possibly with negative / half-integer exponents) are written as the square of
+    a positive root variable: h = r^2, so h^e = r^(2e)"""
     terms = []
     for m, c in p.t.items():
         t = z3.RealVal(str(Fraction(c)))
         for v, e in m:
+            if v in P.UNITS:
+                key = ("root", v)
+                x = zvars.get(key)
+                if x is None:
+                    x = z3.Real(P.NAMES[v] + "__root")
+                    zvars[key] = x
+                k = Fraction(e) * 2
+                assert k.denominator == 1, (P.NAMES[v], e)
+                k = int(k)
+                for _ in range(abs(k)):
+                    t = (t * x) if k > 0 else (t / x)
+                continue
             x = zvars.get(v)
             if x is None:
                 x = z3.Real(P.NAMES[v])
@@ -58,6 +72,9 @@ def decide_identities(pairs, timeout_ms=60000, use_cvc5=False):
         ea, eb = poly_to_z3(a, zvars), poly_to_z3(b, zvars)
         s.push()
         s.add(ea != eb)
+        for k_, x in zvars.items():
+            if isinstance(k_, tuple):
+                s.add(x > 0)
         t = time.time()
         r = str(s.check())
         dt = time.time() - t
@@ -68,9 +85,13 @@ def decide_identities(pairs, timeout_ms=60000, use_cvc5=False):
             for v, x in zvars.items():
                 val = m.eval(x, model_completion=True)
                 try:
-                    model[P.NAMES[v]] = Fraction(val.numerator_as_long(), val.denominator_as_long())
+                    fv = Fraction(val.numerator_as_long(), val.denominator_as_long())
                 except Exception:  # noqa: BLE001  algebraic value
-                    model[P.NAMES[v]] = Fraction(val.approx(20).as_fraction()) if hasattr(val, "approx") else Fraction(0)
+                    fv = Fraction(val.approx(20).as_fraction()) if hasattr(val, "approx") else Fraction(0)
+                if isinstance(v, tuple):
+                    model[P.NAMES[v[1]]] = fv * fv
+                else:
+                    model[P.NAMES[v]] = fv
         s.pop()
         out.append({"verdict": r, "solver_s": dt, "model": model})
     return out
@@ -194,11 +215,18 @@ class DCase:
                     zv = {}
                     ea, eb = poly_to_z3(la[k], zv), poly_to_z3(lb[k], zv)
                     for vid_, x in zv.items():
-                        z.add(x == z3.RealVal(str(env0.get(P.NAMES[vid_], 1))))
+                        if isinstance(vid_, tuple):
+                            import math as _m
+                            val_ = Fraction(env0.get(P.NAMES[vid_[1]], 1))
+                            rt = Fraction(_m.isqrt(val_.numerator), _m.isqrt(val_.denominator))
+                            z.add(x == z3.RealVal(str(rt)))
+                        else:
+                            z.add(x == z3.RealVal(str(env0.get(P.NAMES[vid_], 1))))
                     z.add(ea != eb)
                     if str(z.check()) == "sat":
                         v["verdict"] = "sat"
-                        v["model"] = {P.NAMES[vid_]: Fraction(env0.get(P.NAMES[vid_], 1)) for vid_ in zv}
+                        v["model"] = {P.NAMES[vid_[1] if isinstance(vid_, tuple) else vid_]:
+                                      Fraction(env0.get(P.NAMES[vid_[1] if isinstance(vid_, tuple) else vid_], 1)) for vid_ in zv}
                         v["pinned"] = True
             vs = [v["verdict"] for v in verdicts]
             if all(v == "unsat" for v in vs):
